@@ -49,6 +49,8 @@ DRV(i2, Vec2i, int)
 DRV(i4, Vec4i, int)
 DRV(c3, Vec3c, signed char)
 DRV(s3, Vec3s, short)
+DRV(d2, Vec2d, double)
+DRV(d4, Vec4d, double)
 
 Vec3i i3_cross(const Vec3i &a, const Vec3i &b) { return a % b; }
 Vec3i i3_cross_free(const Vec3i &a, const Vec3i &b) { return cross(a, b); }
